@@ -53,8 +53,10 @@ def gen_unit_module(rng, mos_like=False):
         insts.append({"n": "e1", "of": copy.deepcopy(E1), "conns": [["a", {"k": "sig", "n": "bus"}], ["b", {"k": "sig", "n": names[0]}]]})
     use_bundle = rng.random() < 0.5
     if use_bundle:
-        bundles.append({"n": "bp", "of": "B19", "port": True, "role": rng.choice(["HOST", "DEVICE", None])})
-        insts.append({"n": "rb", "of": copy.deepcopy(R), "conns": [["p", {"k": "bref", "root": "bp", "path": ["x"]}], ["n", {"k": "bref", "root": "bp", "path": ["y"]}]]})
+        # a bundle-valued port: possibly flipped, possibly under one of the names the generators use internally
+        bn = rng.choice([x for x in ["bp", "bp", "inner", "i", "units"] if x not in names])
+        bundles.append({"n": bn, "of": "B19", "port": True, "role": rng.choice(["HOST", "DEVICE", None]), "flip": rng.random() < 0.5})
+        insts.append({"n": "rb", "of": copy.deepcopy(R), "conns": [["p", {"k": "bref", "root": bn, "path": ["x"]}], ["n", {"k": "bref", "root": bn, "path": ["y"]}]]})
     if rng.random() < 0.4:
         sigs.append({"n": "x1", "w": 1, "port": False, "dir": "none"})
         insts.append({"n": "rx", "of": copy.deepcopy(R), "conns": [["p", {"k": "sig", "n": "x1"}], ["n", {"k": "sig", "n": names[-1]}]]})
@@ -88,7 +90,7 @@ def make_cases(rng, n_cases, nmax):
             unit = {"leaf": copy.deepcopy(rng.choice(leaves))} if rng.random() < 0.55 else {"design": gen_unit_module(rng)}
         ports = unit_ports(unit)
         sigports = [p for p in ports if not p[2]]
-        n = rng.choice([1, 2, 2, 3, 3, 4, 5]) if rng.random() < 0.8 else rng.randint(1, nmax)
+        n = rng.choice([1, 2, 2, 3, 3, 4, 5]) if rng.random() < 0.75 else rng.randint(1, nmax)  # (past 10: unit names no longer sort like their indices)
         if gen == "MosStack":
             first, second = "d", "s"
         else:
@@ -142,11 +144,26 @@ def impl_builtin(case):
             else:
                 conns = (case["first"], case["second"])
             m = Series(unit=u, nser=case["n"], conns=conns)
-        pkg = h.to_proto(m)
     except Exception as ex:  # noqa
         return {"refused": common.errstr(ex)}
+    # what the generator handed back, before anything else looks at it: the unit's ports, signal and bundle valued
+    def iface(x):
+        if isinstance(x, h.Module):
+            return sorted([("sig", n) for n in x.ports] + [("bundle", n) for n, b in x.bundles.items() if b.port])
+        return sorted(("sig", p.name) for p in x.ports.values()) if hasattr(x.ports, "values") else sorted(("sig", p) for p in x.ports)
+    out = {}
+    try:
+        want = iface(u) if isinstance(u, h.Module) else sorted(("sig", p["n"]) for p in unit["leaf"]["ports"])
+        if not (isinstance(u, h.Module) and case.get("pre_elab")):
+            out["iface"] = {"got": iface(m), "want": want}
+    except Exception as ex:  # noqa
+        out["iface_error"] = common.errstr(ex)
+    try:
+        pkg = h.to_proto(m)
+    except Exception as ex:  # noqa
+        return dict(out, refused=common.errstr(ex))
     pj = observe.pkg_json(pkg)
-    return {"pkg": pj, "top": pj["modules"][-1]["name"]}
+    return dict(out, pkg=pj, top=pj["modules"][-1]["name"])
 
 
 def fresh(taken, name):
@@ -271,6 +288,9 @@ def judge(case, im, mo, sem):
         yield ("corr", f"harness could not build the unit: {im['build_error']}")
         return
     accept = mo.get("accept", True)
+    if accept and "iface" in im and im["iface"]["got"] != im["iface"]["want"]:
+        yield ("pred", {"why": "the generated module does not expose exactly the unit's ports", "got": im["iface"]["got"], "unit": im["iface"]["want"]})
+        return
     if "refused" in im:
         if accept:
             yield ("corr", f"a unit / series pair the model accepts is refused: {im['refused'][-300:]}")
@@ -317,12 +337,26 @@ def corpus():
         out.append({"unit": {"design": copy.deepcopy(u)}, "gen": "Series", "n": 3, "first": "a", "second": "b", "by": "name", "pre_elab": pre})
     out.append({"unit": {"leaf": copy.deepcopy(E_CLASH)}, "gen": "Series", "n": 3, "first": "i", "second": "o", "by": "name", "pre_elab": False})
     out.append({"unit": {"leaf": copy.deepcopy(E_CLASH)}, "gen": "Wrapper", "n": 1, "first": "i", "second": "o", "by": "name", "pre_elab": False})
+    # more than ten units (units_10 sorts before units_2), over a primitive and over a module
+    out.append({"unit": {"leaf": copy.deepcopy(gen_design.LEAVES[3])}, "gen": "Series", "n": 12, "first": "p", "second": "n", "by": "name", "pre_elab": False})
+    out.append({"unit": {"leaf": copy.deepcopy(gen_design.LEAVES[5])}, "gen": "MosStack", "n": 11, "first": "d", "second": "s", "by": "name", "pre_elab": False})
+    out.append({"unit": {"design": copy.deepcopy(u)}, "gen": "Series", "n": 13, "first": "b", "second": "a", "by": "signal", "pre_elab": False})
+    # a flipped bundle port, and bundle ports under the generators' internal names
+    for bn, flip, gen, n in (("bp", True, "Wrapper", 1), ("bp", True, "Series", 2), ("inner", False, "Wrapper", 1), ("inner", True, "Series", 1), ("i", False, "Series", 3), ("units", False, "Series", 2)):
+        u2 = copy.deepcopy(u)
+        um = u2["modules"][0]
+        um["bundles"][0].update(n=bn, flip=flip, role="HOST")
+        for i in um["insts"]:
+            for pc in i["conns"]:
+                if pc[1]["k"] == "bref":
+                    pc[1]["root"] = bn
+        out.append({"unit": {"design": u2}, "gen": gen, "n": n, "first": "a", "second": "b", "by": "name", "pre_elab": False})
     return out
 
 
 def run(ctx):
     rep = ctx.rep
-    nmax = 8 if ctx.quick else 40
+    nmax = 14 if ctx.quick else 40
     rep.extra["rule"] = (
         f"Series / MosStack / Wrapper over primitive, external-module and generated-module units (scalar, bus, bundle ports; fresh or "
         f"pre-elaborated; ports named i / units / inner), n in 1..{nmax}, every kind of ordered pair of distinct ports by name or by Signal; "
